@@ -251,7 +251,7 @@ theorem walk_trees (g : Store) : ∀ (ts : List PTree) (fuel : Nat) (P : Dict) (
     refine ⟨h2.err, ?_, ?_⟩
     · show (walkKids (visit g fuel) (kidRefs ts) P (t.ids.reverse ++ vis)).visited = _
       rw [h2.visited]; simp [idsL]
-    · show List.map rawKey ((visit g fuel (Elem.atom (Atom.ref t.id)) P vis).pages ++
+    · show List.map rawKey ((visit g fuel (Val.atom (Atom.ref t.id)) P vis).pages ++
           (walkKids (visit g fuel) (kidRefs ts) P (t.ids.reverse ++ vis)).pages) = _
       rw [List.map_append, h1.pages, h2.pages]; simp [specLeavesL]
 end
@@ -367,6 +367,7 @@ theorem toTree_embeds (g : Store) : ∀ fuel a t, toTree g fuel a = some t → E
     intro a t h
     cases a with
     | dict kvs => simp [toTree] at h
+    | arr xs => simp [toTree] at h
     | atom a =>
     cases a with
     | ref n =>
